@@ -104,6 +104,36 @@ theorem acc_of_ord_contL (d0 dA : Disk Content MetaRec WalRec LogRec) (m1 : Meta
   | fsyncBegin _ _ => trivial
   | fsyncEnd _ _ => trivial
 
+/-- the clauses of T4.1 imply the clauses of T4.2c -/
+theorem contChk_weaken (d0 dA : Disk Content MetaRec WalRec LogRec) (m1 : MetaRec) (w1 : WalRec) (ph : Nat)
+    (s : CState Content MetaRec WalRec LogRec) (ev : CEv Content MetaRec WalRec LogRec)
+    (h : contChk (AllowedPre P d0) (contPost P w1) ph s ev) :
+    contChk (AllowedPreL' P L d0) (contPostL P L dA m1 w1) ph s ev := by
+  cases ev with
+  | effBegin id e =>
+    intro hm
+    obtain ⟨h0, h2⟩ := h hm
+    constructor
+    · intro hp
+      have := h0 hp
+      cases e with
+      | page f pn c => exact this
+      | walSet w => cases w with
+        | none => trivial
+        | some w => exact this
+      | setMeta m => exact this
+      | logSet l => exact absurd this (by simp [AllowedPre])
+    · intro hp
+      have := h2 hp
+      cases e with
+      | logSet l => exact absurd this.1 (by simp [AllowedPost])
+      | page f pn c => exact this
+      | walSet w => exact this
+      | setMeta m => exact this
+  | effEnd _ => trivial
+  | fsyncBegin _ _ => trivial
+  | fsyncEnd _ _ => trivial
+
 /-- **the crash theorem with the rollback log for concurrent traces** (helper form of `Nomt.C04.T4_9…`) -/
 theorem conc_sync_crash_atomic_log
     (d0 : Disk Content MetaRec WalRec LogRec)
